@@ -167,7 +167,9 @@ def check(ctx):
             pc = T.conj(ser[0]['pc'])
             want = T.lor(('==', mode, ('enum', 'silent_and_write_chkpt')),
                          ('==', mode, ('enum', 'verbose_and_write_chkpt')))
-            if pc == want:
+            by_mode = {m_: under_mode(pc, mode, m_) for m_ in CALLBACK_MODES}
+            ok_modes = all(by_mode[m_] == (T.TRUE if m_.endswith('write_chkpt') else T.FALSE) for m_ in CALLBACK_MODES)
+            if pc == want or ok_modes:
                 ctx.holds('R4.writes_this_checkpoint', where, 'in both *_write_chkpt modes the checkpoint '
                           'just extended is serialised after every iteration')
             else:
